@@ -17,6 +17,7 @@ Print Assumptions C12_roundtrip.
 Theorem C12_split : forall ps cur, Forall (fun p => no_marker p = true) ps ->
   split_go MARKER 0 cur (str_from_list ps) = pieces cur ps.
 Proof. exact split_group. Qed.
+Print Assumptions C12_split.
 
 (** 'name#id' / '$name.csvpaths.id' return exactly the (first) member with that identity, ':to' the
     prefix ending at it, ':from' the suffix starting at it *)
@@ -33,6 +34,7 @@ Theorem C12_manifest : forall sha man g,
   man_add sha (man_add sha man g) g = man_add sha man g /\
   man_add sha man g = match rev man with f :: _ => if f =? sha g then man else man ++ [sha g] | [] => man ++ [sha g] end.
 Proof. intros. split; [apply manifest_identical_readd|reflexivity]. Qed.
+Print Assumptions C12_manifest.
 
 Example C12_nonvacuous :
   (* two csvpaths, the first with an outer comment, an inner comment and a newline *)
